@@ -87,8 +87,8 @@ static void run_context(hz::Ctx &ctx, const LineCase &c, bool nested = false) {
   auto alone = al::assemble(text(c.it), c.combo);
   // the line in front of / next to text that is no code: a directive, a label or a comment behind it (also further down),
   // a comment on the line itself - with words that mean something elsewhere (section, global, register and mnemonic names)
-  { static const char *AFTER[] = {"\nsection .data\n", "\nglobal main\n", "\n; the global section follows\n", "\nnext_label:\n", " ; bump the global counter\n", " ;section\n", "\n\n\n  SECTION .text\n", " ; mov rax, rbx : x\n", "\nnop\nnop\n; see section 3\n", "\r\n%define global 1\r\n", " ; GLOBAL\n\tglobal f\n", "\n;\n"};
-    unsigned k = (unsigned)((hz::fnv(id) >> 17) % 12); std::string t2 = text(c.it) + AFTER[k]; auto r2 = al::assemble(t2, c.combo);
+  { static const char *AFTER[] = {"\nsection .data\n", "\nglobal main\n", "\n; the global section follows\n", "\nnext_label:\n", " ; bump the global counter\n", " ;section\n", "\n\n\n  SECTION .text\n", " ; mov rax, rbx : x\n", "\nnop\nnop\n; see section 3\n", "\r\n%define global 1\r\n", " ; GLOBAL\n\tglobal f\n", "\n;\n", " ; gr\xc3\xb6\xc3\x9f" "er als\n", "\n; \xe2\x86\x92 next\n;\xff\n"};
+    unsigned k = (unsigned)((hz::fnv(id) >> 17) % 14); std::string t2 = text(c.it) + AFTER[k]; auto r2 = al::assemble(t2, c.combo);
     size_t extra = k == 8 ? 2 : 0;   // two nops follow in variant 8
     ctx.cls("part:in-front-of-non-code-text");
     if (r2.rc != alone.rc || (alone.rc == 0 && (r2.bytes.size() != alone.bytes.size() + extra || memcmp(r2.bytes.data(), alone.bytes.data(), alone.bytes.size())))) {
@@ -211,7 +211,7 @@ static void prop_c03_encoding(hz::Ctx &ctx) {
     std::vector<std::vector<WOpd>> cands;
     for (auto &s : r.slots) {
       if (is_imm_slot(s)) { cands.push_back({}); continue; }
-      if (is_mem_slot(s)) { std::vector<WOpd> ms; for (auto &m : sh) { ms.push_back(mem_for_slot(m, s, r.size, r.f->kw, false)); } cands.push_back(ms); }
+      if (is_mem_slot(s)) { std::vector<WOpd> ms; for (auto &m : sh) { ms.push_back(mem_for_slot(m, s, r.size, r.f->kw, (ms.size() & 1) != 0)); } cands.push_back(ms); }
       else cands.push_back(reg_candidates(s, r.size));
     }
     (void)ndest; (void)destsets;
@@ -298,7 +298,7 @@ static void prop_c03_corners(hz::Ctx &ctx) {
       Intent it = base_intent(r); bool bad = false;
       for (auto &s : r.slots) {
         if (is_imm_slot(s)) it.ops.push_back(wimm(sps[vi].v, space, sps[vi].hex, sps[vi].neg, 0));
-        else if (is_mem_slot(s)) it.ops.push_back(mem_for_slot(sh[si], s, r.size, r.f->kw, false));
+        else if (is_mem_slot(s)) it.ops.push_back(mem_for_slot(sh[si], s, r.size, r.f->kw, ((si + vi) & 1) != 0));
         else { auto c = reg_candidates(s, r.size); if (c.empty()) { bad = true; break; } WOpd o = c[(si + vi) % c.size()]; if (o.high8) { o.high8 = false; o.reg &= 3; } it.ops.push_back(o); }
       }
       if (bad || !encodable(it)) continue;
@@ -333,7 +333,7 @@ void prop_c04(hz::Ctx &ctx) {
       if (!ctx.thorough() && (si + hz::fnv(r.mn) + ctx.seed) % 4) continue;
       std::vector<std::vector<WOpd>> cands;
       for (auto &s : r.slots) {
-        if (is_mem_slot(s)) cands.push_back({mem_for_slot(sh[si], s, r.size, r.f->kw, false)});
+        if (is_mem_slot(s)) cands.push_back({mem_for_slot(sh[si], s, r.size, r.f->kw, (si & 1) != 0)});
         else if (is_imm_slot(s)) cands.push_back({wimm(1 + rng.below(254), 8, true)});
         else { auto all = reg_candidates(s, r.size); std::vector<WOpd> pick; // two low, two high registers per slot
                pick.push_back(all[rng.below(8) % all.size()]); if (all.size() > 8) pick.push_back(all[8 + rng.below(8)]); cands.push_back(pick); }
